@@ -6,13 +6,16 @@ import (
 	"encoding/json"
 	"fmt"
 	"reflect"
+	"runtime/debug"
 	"sort"
 	"strings"
+	"sync"
 	"testing"
 	"time"
 
 	jose "github.com/go-jose/go-jose/v4"
 	"github.com/zitadel/oidc/v3/pkg/client/rp"
+	libcrypto "github.com/zitadel/oidc/v3/pkg/crypto"
 	"github.com/zitadel/oidc/v3/pkg/oidc"
 	"pgregory.net/rapid"
 
@@ -24,13 +27,13 @@ import (
 type Config struct {
 	Issuer    string   `json:"issuer"`
 	ClientID  string   `json:"client_id"`
-	OffsetS   int      `json:"offset_s"`    // -1: constructor default (1s)
-	MaxIATS   int      `json:"max_iat_s"`   // 0: off
-	MaxAuthS  int      `json:"max_auth_s"`  // 0: off
-	NonceMode string   `json:"nonce_mode"`  // default | fixed | nil
-	Nonce     string   `json:"nonce"`       // for fixed
-	ACR       []string `json:"acr"`         // nil: no acr policy
-	Algs      []string `json:"algs"`        // nil: default list
+	OffsetS   int      `json:"offset_s"`   // -1: constructor default (1s)
+	MaxIATS   int      `json:"max_iat_s"`  // 0: off
+	MaxAuthS  int      `json:"max_auth_s"` // 0: off
+	NonceMode string   `json:"nonce_mode"` // default | fixed | nil
+	Nonce     string   `json:"nonce"`      // for fixed
+	ACR       []string `json:"acr"`        // nil: no acr policy
+	Algs      []string `json:"algs"`       // nil: default list
 }
 
 // TimeSpec is a time claim: absent, or now+Rel seconds (evaluated at run time).
@@ -39,28 +42,62 @@ type TimeSpec struct {
 	Rel    int  `json:"rel"`
 }
 
+// Neighbours are legitimate claims the statement does not mention: registered JWT / OIDC / RFC 9068 / RFC 8693 claims that
+// sit next to the checked ones, and custom claims with look-alike names. They must have no influence on the verdict and
+// come back with the other claims.
+type Neighbours struct {
+	ClientID *string        `json:"client_id,omitempty"` // RFC 9068 client_id: equal to the RP's client id, another party, empty
+	Scope    *string        `json:"scope,omitempty"`
+	JTI      *string        `json:"jti,omitempty"`
+	NbfRel   *int           `json:"nbf_rel,omitempty"` // nbf = now+rel (only values in the past: a token that is already valid)
+	AMR      []string       `json:"amr,omitempty"`
+	SID      *string        `json:"sid,omitempty"`
+	CHash    string         `json:"c_hash,omitempty"` // "" absent | code (hash of a code) | at (hash of the access token) | junk
+	Act      bool           `json:"act,omitempty"`    // RFC 8693 actor
+	Custom   map[string]any `json:"custom,omitempty"` // look-alike custom members (audience, authorized_party, cid, s_hash, ...)
+}
+
 type TokenSpec struct {
-	Iss       *string  `json:"iss"`
-	Sub       *string  `json:"sub"`
-	Aud       any      `json:"aud"` // nil (absent) | string | []string
-	Azp       *string  `json:"azp"`
-	Exp       TimeSpec `json:"exp"`
-	Iat       TimeSpec `json:"iat"`
-	AuthTime  TimeSpec `json:"auth_time"`
-	Nonce     *string  `json:"nonce"`
-	Acr       *string  `json:"acr"`
-	AtHash    string   `json:"at_hash"` // absent | correct | otheralg | full | othertoken | junk
-	Alg       string   `json:"alg"`
-	Key       string   `json:"key"`     // pool key used to sign
-	Extra     bool     `json:"extra"`   // add custom claims
-	AccessTok string   `json:"access_token"`
-	WithAT    bool     `json:"with_at"` // call VerifyTokens instead of VerifyIDToken
+	Iss       *string     `json:"iss"`
+	Sub       *string     `json:"sub"`
+	Aud       any         `json:"aud"` // nil (absent) | string | []string
+	Azp       *string     `json:"azp"`
+	Exp       TimeSpec    `json:"exp"`
+	Iat       TimeSpec    `json:"iat"`
+	AuthTime  TimeSpec    `json:"auth_time"`
+	Nonce     *string     `json:"nonce"`
+	Acr       *string     `json:"acr"`
+	AtHash    string      `json:"at_hash"` // absent | correct | otheralg | full | othertoken | junk
+	Alg       string      `json:"alg"`
+	Key       string      `json:"key"`   // pool key used to sign
+	Extra     bool        `json:"extra"` // add custom claims
+	AccessTok string      `json:"access_token"`
+	WithAT    bool        `json:"with_at"` // call VerifyTokens instead of VerifyIDToken
+	Nb        *Neighbours `json:"nb,omitempty"`
+}
+
+// Step is one entry of a history on ONE verifier instance in one process: a verification, or a call of an exported helper
+// that a relying party may use between verifications.
+type Step struct {
+	Op     string     `json:"op"`                // verify | hasher | claimhash | hashstring | verifyat
+	Tok    *TokenSpec `json:"tok,omitempty"`     // verify
+	Alg    string     `json:"alg,omitempty"`     // helpers: signature algorithm
+	Data   string     `json:"data,omitempty"`    // helpers: the string that is hashed / the access token
+	Use    string     `json:"use,omitempty"`     // hasher: write | write+sum | write+sum+reset; hashstring: half | full
+	AtHash string     `json:"at_hash,omitempty"` // verifyat: class of the presented at_hash
 }
 
 type Case struct {
 	Cfg     Config    `json:"cfg"`
 	Tok     TokenSpec `json:"tok"`
 	Trusted []string  `json:"trusted"` // pool keys the verifier trusts (kid = key name)
+
+	// V=0: one verification, key set published as kidOf describes. V=2: every trusted key under its own name, StandIn
+	// publishes kid -> another key ("" = nothing): a token signed by the key named kid meets the wrong key / no key.
+	V       int               `json:"v,omitempty"`
+	StandIn map[string]string `json:"stand_in,omitempty"`
+	Steps   []Step            `json:"steps,omitempty"` // run after the verification of Tok, same verifier
+	Conc    [][]Step          `json:"conc,omitempty"`  // goroutines released together on one verifier; Tok is the first step of goroutine 0
 }
 
 // ---- generator ------------------------------------------------------------------
@@ -70,108 +107,299 @@ const (
 	goodClient = "client-1"
 )
 
-func sp(s string) *string { return &s }
+var allAlgs = []string{"RS256", "RS384", "RS512", "PS256", "PS384", "PS512", "ES256", "ES384", "ES512", "EdDSA"}
 
-func genCase(t *rapid.T) Case {
-	var c Case
-	c.Cfg.Issuer = rapid.SampledFrom([]string{goodIssuer, goodIssuer + "/", "https://issuer.example.com/oidc"}).Draw(t, "issuer")
-	c.Cfg.ClientID = rapid.SampledFrom([]string{goodClient, "client-2", "c"}).Draw(t, "client")
-	c.Cfg.OffsetS = rapid.SampledFrom([]int{-1, -1, 0, 1, 5, 60}).Draw(t, "offset")
-	c.Cfg.MaxIATS = rapid.SampledFrom([]int{0, 0, 10, 300}).Draw(t, "maxiat")
-	c.Cfg.MaxAuthS = rapid.SampledFrom([]int{0, 0, 60, 3600}).Draw(t, "maxauth")
-	c.Cfg.NonceMode = rapid.SampledFrom([]string{"default", "fixed", "fixed", "nil"}).Draw(t, "noncemode")
-	if c.Cfg.NonceMode == "fixed" {
-		c.Cfg.Nonce = rapid.SampledFrom([]string{"n-1", "N-1", "n 1"}).Draw(t, "cfgnonce")
+func sp(s string) *string { return &s }
+func ip(i int) *int       { return &i }
+
+func genCfg(t *rapid.T) Config {
+	var cfg Config
+	cfg.Issuer = rapid.SampledFrom([]string{goodIssuer, goodIssuer + "/", "https://issuer.example.com/oidc"}).Draw(t, "issuer")
+	cfg.ClientID = rapid.SampledFrom([]string{goodClient, "client-2", "c"}).Draw(t, "client")
+	cfg.OffsetS = rapid.SampledFrom([]int{-1, -1, 0, 1, 5, 60}).Draw(t, "offset")
+	cfg.MaxIATS = rapid.SampledFrom([]int{0, 0, 10, 300}).Draw(t, "maxiat")
+	cfg.MaxAuthS = rapid.SampledFrom([]int{0, 0, 60, 3600}).Draw(t, "maxauth")
+	cfg.NonceMode = rapid.SampledFrom([]string{"default", "fixed", "fixed", "nil"}).Draw(t, "noncemode")
+	if cfg.NonceMode == "fixed" {
+		cfg.Nonce = rapid.SampledFrom([]string{"n-1", "N-1", "n 1"}).Draw(t, "cfgnonce")
 	}
 	if rapid.IntRange(0, 2).Draw(t, "acrpolicy") == 0 {
-		c.Cfg.ACR = rapid.SampledFrom([][]string{{"loa2"}, {"loa1", "loa2"}, {}}).Draw(t, "acrlist")
+		cfg.ACR = rapid.SampledFrom([][]string{{"loa2"}, {"loa1", "loa2"}, {}}).Draw(t, "acrlist")
 	}
-	c.Cfg.Algs = rapid.SampledFrom([][]string{nil, nil, {"RS256"}, {"ES256", "EdDSA"}, {"PS256", "RS384"}, {"ES384", "ES512", "RS512", "PS384", "PS512"}}).Draw(t, "algs")
+	cfg.Algs = rapid.SampledFrom([][]string{nil, nil, {"RS256"}, {"ES256", "EdDSA"}, {"PS256", "RS384"}, {"ES384", "ES512", "RS512", "PS384", "PS512"}}).Draw(t, "algs")
+	return cfg
+}
 
-	// signing key and alg: mostly one the verifier allows
-	allowed := c.Cfg.Algs
-	if allowed == nil {
-		allowed = []string{"RS256", "ES256", "PS256"}
+func allowedAlgs(cfg Config) []string {
+	if cfg.Algs == nil {
+		return []string{"RS256", "ES256", "PS256"}
 	}
-	if rapid.IntRange(0, 9).Draw(t, "algok") > 0 {
-		c.Tok.Alg = rapid.SampledFrom(allowed).Draw(t, "alg")
-	} else {
-		c.Tok.Alg = rapid.SampledFrom([]string{"RS256", "RS384", "RS512", "PS256", "PS384", "PS512", "ES256", "ES384", "ES512", "EdDSA"}).Draw(t, "alg")
-	}
+	return cfg.Algs
+}
+
+func fittingKeys(alg string) []string {
 	var fitting []string
 	for _, n := range vkit.KeyNames {
-		if vkit.AlgFitsKey(c.Tok.Alg, vkit.Key(n)) {
+		if vkit.AlgFitsKey(alg, vkit.Key(n)) {
 			fitting = append(fitting, n)
 		}
 	}
-	c.Tok.Key = rapid.SampledFrom(fitting).Draw(t, "key")
-	c.Trusted = []string{c.Tok.Key}
-	if rapid.IntRange(0, 9).Draw(t, "untrusted") == 0 {
-		// sign with a key the verifier does not trust (same kid published for another key if one exists)
-		c.Trusted = nil
-		for _, n := range fitting {
-			if n != c.Tok.Key {
-				c.Trusted = append(c.Trusted, n)
-				break
-			}
-		}
+	return fitting
+}
+
+// genToken draws alg, key and claims of one token for a verifier configured with cfg. atBias: most tokens come as a
+// token response (with access token and at_hash).
+func genToken(t *rapid.T, cfg Config, atBias bool) TokenSpec {
+	var tok TokenSpec
+	// signing key and alg: mostly one the verifier allows
+	if rapid.IntRange(0, 9).Draw(t, "algok") > 0 {
+		tok.Alg = rapid.SampledFrom(allowedAlgs(cfg)).Draw(t, "alg")
+	} else {
+		tok.Alg = rapid.SampledFrom(allAlgs).Draw(t, "alg")
 	}
+	tok.Key = rapid.SampledFrom(fittingKeys(tok.Alg)).Draw(t, "key")
 
 	// canonical valid token relative to the config
 	now := 0
-	tok := &c.Tok
-	tok.Iss = sp(c.Cfg.Issuer)
+	tok.Iss = sp(cfg.Issuer)
 	tok.Sub = sp("user-1")
-	tok.Aud = []string{c.Cfg.ClientID}
+	tok.Aud = []string{cfg.ClientID}
 	tok.Exp = TimeSpec{Rel: 3600}
 	tok.Iat = TimeSpec{Rel: now - 5}
 	tok.AuthTime = TimeSpec{Rel: now - 20}
-	switch c.Cfg.NonceMode {
+	switch cfg.NonceMode {
 	case "fixed":
-		tok.Nonce = sp(c.Cfg.Nonce)
+		tok.Nonce = sp(cfg.Nonce)
 	case "nil":
 		if rapid.Bool().Draw(t, "anynonce") {
 			tok.Nonce = sp("whatever")
 		}
 	}
-	if c.Cfg.ACR != nil && len(c.Cfg.ACR) > 0 {
-		tok.Acr = sp(c.Cfg.ACR[0])
+	if cfg.ACR != nil && len(cfg.ACR) > 0 {
+		tok.Acr = sp(cfg.ACR[0])
 	}
 	tok.AtHash = "absent"
-	tok.AccessTok = rapid.SampledFrom([]string{"at-1", "eyJhbGciOiJSUzI1NiJ9.e30.c2ln", ""}).Draw(t, "at")
+	tok.AccessTok = rapid.SampledFrom([]string{"at-1", "eyJhbGciOiJSUzI1NiJ9.e30.c2ln", "", "at-2-" + strings.Repeat("z", 200)}).Draw(t, "at")
 	tok.WithAT = rapid.Bool().Draw(t, "withat")
+	if atBias && !tok.WithAT {
+		tok.WithAT = rapid.IntRange(0, 3).Draw(t, "withat2") > 0
+	}
 	if tok.WithAT {
 		tok.AtHash = rapid.SampledFrom([]string{"absent", "correct", "correct", "correct"}).Draw(t, "athash0")
 	}
 	tok.Extra = rapid.Bool().Draw(t, "extra")
+	if rapid.Bool().Draw(t, "neighbours") {
+		tok.Nb = genNeighbours(t, cfg)
+	}
 
 	// mutate 0..3 dimensions
 	nmut := rapid.SampledFrom([]int{0, 0, 1, 1, 1, 2, 2, 3}).Draw(t, "nmut")
 	for i := 0; i < nmut; i++ {
-		mutate(t, &c)
+		mutate(t, cfg, &tok)
+	}
+	return tok
+}
+
+type customClaim struct {
+	k string
+	v []any
+}
+
+// genNeighbours: claims the statement does not speak about. All of them are things an OP may put into an ID token.
+func genNeighbours(t *rapid.T, cfg Config) *Neighbours {
+	nb := &Neighbours{}
+	cid := cfg.ClientID
+	if rapid.IntRange(0, 9).Draw(t, "nb_client_id") < 6 {
+		nb.ClientID = rapid.SampledFrom([]*string{sp(cid), sp(cid), sp("other-client"), sp("x"), sp("")}).Draw(t, "client_id")
+	}
+	if rapid.IntRange(0, 2).Draw(t, "nb_scope") == 0 {
+		nb.Scope = rapid.SampledFrom([]*string{sp("openid"), sp("openid profile email"), sp("")}).Draw(t, "scope")
+	}
+	if rapid.IntRange(0, 2).Draw(t, "nb_jti") == 0 {
+		nb.JTI = rapid.SampledFrom([]*string{sp("jti-1"), sp(cid), sp("0")}).Draw(t, "jti")
+	}
+	if rapid.IntRange(0, 2).Draw(t, "nb_nbf") == 0 {
+		nb.NbfRel = ip(rapid.SampledFrom([]int{-5, -30, -3600, -86400}).Draw(t, "nbf"))
+	}
+	if rapid.IntRange(0, 2).Draw(t, "nb_amr") == 0 {
+		nb.AMR = rapid.SampledFrom([][]string{{"pwd"}, {"pwd", "otp"}, {"loa2"}, {cid}}).Draw(t, "amr")
+	}
+	if rapid.IntRange(0, 2).Draw(t, "nb_sid") == 0 {
+		nb.SID = rapid.SampledFrom([]*string{sp("sid-1"), sp(cid), sp("n-1")}).Draw(t, "sid")
+	}
+	if rapid.IntRange(0, 2).Draw(t, "nb_c_hash") == 0 {
+		nb.CHash = rapid.SampledFrom([]string{"code", "at", "junk"}).Draw(t, "c_hash")
+	}
+	if rapid.IntRange(0, 5).Draw(t, "nb_act") == 0 {
+		nb.Act = true
+	}
+	// custom members; names differ from every registered member also when letter case is ignored
+	pool := []customClaim{
+		{"audience", []any{cid, "x", []any{cid, "x"}, []any{"x", "y"}}},
+		{"authorized_party", []any{cid, "x"}},
+		{"cid", []any{cid, "x"}},
+		{"s_hash", []any{"LDktKdoQak3Pk0cnXxCltA", "AAAA"}},
+		{"issuer", []any{cfg.Issuer, "https://evil.example.com"}},
+		{"expires_in", []any{3600.0, -1.0, 0.0}},
+		{"acr_values", []any{"loa1 loa2", "loa3"}},
+		{"nonce_supported", []any{true, false}},
+		{"at_hash_alg", []any{"RS512", "none"}},
+	}
+	n := rapid.SampledFrom([]int{0, 0, 1, 1, 2, 3}).Draw(t, "ncustom")
+	for i := 0; i < n; i++ {
+		e := rapid.SampledFrom(pool).Draw(t, "customname")
+		if nb.Custom == nil {
+			nb.Custom = map[string]any{}
+		}
+		nb.Custom[e.k] = rapid.SampledFrom(e.v).Draw(t, "customvalue")
+	}
+	return nb
+}
+
+// trust decides, once per signing key of a case, whether the verifier's key set holds it (mostly yes) or - under the
+// same kid - another key of the same kind, or nothing.
+func trust(t *rapid.T, c *Case, tok *TokenSpec) {
+	if contains(c.Trusted, tok.Key) {
+		return
+	}
+	if _, ok := c.StandIn[tok.Key]; ok {
+		return
+	}
+	if rapid.IntRange(0, 9).Draw(t, "untrusted") > 0 {
+		c.Trusted = append(c.Trusted, tok.Key)
+		return
+	}
+	if c.StandIn == nil {
+		c.StandIn = map[string]string{}
+	}
+	c.StandIn[tok.Key] = "" // nothing to stand in: the kid is simply unknown to the verifier
+	for _, n := range fittingKeys(tok.Alg) {
+		if n != tok.Key {
+			c.StandIn[tok.Key] = n
+			break
+		}
+	}
+}
+
+func genTrustedToken(t *rapid.T, c *Case, atBias bool) TokenSpec {
+	tok := genToken(t, c.Cfg, atBias)
+	trust(t, c, &tok)
+	return tok
+}
+
+func genHelper(t *rapid.T, algs []string) Step {
+	st := Step{Op: rapid.SampledFrom([]string{"hasher", "hasher", "hasher", "claimhash", "hashstring", "verifyat"}).Draw(t, "helper")}
+	if len(algs) > 0 && rapid.IntRange(0, 9).Draw(t, "helperalgnear") < 7 {
+		st.Alg = rapid.SampledFrom(algs).Draw(t, "helperalg")
+	} else {
+		st.Alg = rapid.SampledFrom(allAlgs).Draw(t, "helperalg")
+	}
+	st.Data = rapid.SampledFrom([]string{"state-of-the-auth-request", "at-1", "", "code-1", strings.Repeat("s", 300)}).Draw(t, "helperdata")
+	switch st.Op {
+	case "hasher":
+		st.Use = rapid.SampledFrom([]string{"write", "write+sum", "write+sum", "write+sum+reset"}).Draw(t, "hasheruse")
+	case "hashstring":
+		st.Use = rapid.SampledFrom([]string{"half", "full"}).Draw(t, "hashstringuse")
+	case "verifyat":
+		st.AtHash = rapid.SampledFrom([]string{"absent", "correct", "correct", "otheralg", "full", "othertoken", "junk"}).Draw(t, "verifyathash")
+	}
+	return st
+}
+
+// algsOf: the algorithms the case speaks about so far (helpers mostly use one of them).
+func algsOf(c *Case) []string {
+	algs := []string{c.Tok.Alg}
+	add := func(steps []Step) {
+		for _, s := range steps {
+			if s.Tok != nil {
+				algs = append(algs, s.Tok.Alg)
+			}
+		}
+	}
+	add(c.Steps)
+	for _, g := range c.Conc {
+		add(g)
+	}
+	return append(algs, allowedAlgs(c.Cfg)...)
+}
+
+// genCase: 60 % single verifications on a fresh verifier, 40 % histories on one verifier.
+func genCase(t *rapid.T) Case {
+	c := Case{V: 2}
+	c.Cfg = genCfg(t)
+	seq := rapid.IntRange(0, 9).Draw(t, "kind") >= 6
+	c.Tok = genTrustedToken(t, &c, seq)
+	if !seq {
+		return c
+	}
+	nver := rapid.IntRange(1, 4).Draw(t, "nver") // 2..5 verifications in all
+	toks := []TokenSpec{c.Tok}
+	for i := 0; i < nver; i++ {
+		nh := rapid.SampledFrom([]int{0, 0, 1, 1, 1, 2}).Draw(t, "nhelpers")
+		for j := 0; j < nh; j++ {
+			c.Steps = append(c.Steps, genHelper(t, algsOf(&c)))
+		}
+		var tok TokenSpec
+		if rapid.IntRange(0, 4).Draw(t, "again") == 0 {
+			// an earlier token response once more (fresh signature, same claims)
+			tok = toks[rapid.IntRange(0, len(toks)-1).Draw(t, "which")]
+		} else {
+			tok = genTrustedToken(t, &c, true)
+		}
+		toks = append(toks, tok)
+		tk := tok
+		c.Steps = append(c.Steps, Step{Op: "verify", Tok: &tk})
+	}
+	return c
+}
+
+// genConcCase: 2-6 goroutines with 1-3 steps each (mostly verifications of token responses) on one verifier.
+func genConcCase(t *rapid.T) Case {
+	c := Case{V: 2}
+	c.Cfg = genCfg(t)
+	c.Tok = genTrustedToken(t, &c, true)
+	k := rapid.IntRange(2, 6).Draw(t, "goroutines")
+	for g := 0; g < k; g++ {
+		n := rapid.IntRange(1, 3).Draw(t, "nsteps")
+		if g == 0 {
+			n-- // Tok is its first step
+		}
+		steps := []Step{}
+		for i := 0; i < n; i++ {
+			if rapid.IntRange(0, 4).Draw(t, "helperstep") == 0 {
+				steps = append(steps, genHelper(t, algsOf(&c)))
+				continue
+			}
+			tok := genTrustedToken(t, &c, true)
+			steps = append(steps, Step{Op: "verify", Tok: &tok})
+		}
+		c.Conc = append(c.Conc, steps)
 	}
 	return c
 }
 
 var boundaryDeltas = []int{-3600, -30, -5, -3, -2, -1, 0, 1, 2, 3, 5, 30, 3600}
 
-func mutate(t *rapid.T, c *Case) {
-	tok := &c.Tok
+func mutate(t *rapid.T, cfg Config, tok *TokenSpec) {
 	dim := rapid.SampledFrom([]string{"iss", "sub", "aud", "azp", "exp", "iat", "auth_time", "nonce", "acr", "at_hash", "aud", "azp", "exp", "iat"}).Draw(t, "dim")
-	off := c.Cfg.OffsetS
+	off := cfg.OffsetS
 	if off < 0 {
 		off = 1
 	}
 	switch dim {
 	case "iss":
-		tok.Iss = rapid.SampledFrom([]*string{nil, sp(""), sp(c.Cfg.Issuer + "/"), sp(strings.TrimSuffix(c.Cfg.Issuer, "/")), sp("https://evil.example.com"), sp(strings.ToUpper(c.Cfg.Issuer))}).Draw(t, "iss")
+		tok.Iss = rapid.SampledFrom([]*string{nil, sp(""), sp(cfg.Issuer + "/"), sp(strings.TrimSuffix(cfg.Issuer, "/")), sp("https://evil.example.com"), sp(strings.ToUpper(cfg.Issuer))}).Draw(t, "iss")
 	case "sub":
 		tok.Sub = rapid.SampledFrom([]*string{nil, sp(""), sp("other")}).Draw(t, "sub")
 	case "aud":
-		cid := c.Cfg.ClientID
+		cid := cfg.ClientID
 		tok.Aud = rapid.SampledFrom([]any{nil, cid, "x", []string{}, []string{cid}, []string{cid, "x"}, []string{"x"}, []string{"x", cid, "y"}, []string{"x", "y"}, []string{cid, cid}, []string{cid + "x"}}).Draw(t, "aud")
+		if len(audOf(*tok)) > 1 && rapid.Bool().Draw(t, "azpwithaud") {
+			// the form several audiences legitimately come in: azp names the RP
+			tok.Azp = sp(cid)
+		}
 	case "azp":
-		tok.Azp = rapid.SampledFrom([]*string{nil, sp(""), sp(c.Cfg.ClientID), sp("x"), sp(c.Cfg.ClientID + " ")}).Draw(t, "azp")
+		tok.Azp = rapid.SampledFrom([]*string{nil, sp(""), sp(cfg.ClientID), sp("x"), sp(cfg.ClientID + " ")}).Draw(t, "azp")
 	case "exp":
 		if rapid.IntRange(0, 5).Draw(t, "expabs") == 0 {
 			tok.Exp = TimeSpec{Absent: true}
@@ -188,7 +416,7 @@ func mutate(t *rapid.T, c *Case) {
 			base := rapid.SampledFrom([]int{0, off, 2 * off}).Draw(t, "iatbase")
 			tok.Iat = TimeSpec{Rel: base + rapid.SampledFrom(boundaryDeltas).Draw(t, "iatd")}
 		default: // age boundary: iat == now-maxIAT
-			m := c.Cfg.MaxIATS
+			m := cfg.MaxIATS
 			if m == 0 {
 				m = 300
 			}
@@ -198,7 +426,7 @@ func mutate(t *rapid.T, c *Case) {
 		if rapid.IntRange(0, 2).Draw(t, "atabs") == 0 {
 			tok.AuthTime = TimeSpec{Absent: true}
 		} else {
-			m := c.Cfg.MaxAuthS
+			m := cfg.MaxAuthS
 			if m == 0 {
 				m = 60
 			}
@@ -241,9 +469,29 @@ func otherAlgFor(alg string) string {
 	return "RS256"
 }
 
-func buildPayload(c Case, now time.Time) (map[string]any, []byte) {
+// hashOfClass: the at_hash value of a class for (alg, access token); ok=false: the member is absent.
+func hashOfClass(class, alg, at string) (string, bool) {
+	switch class {
+	case "correct":
+		return vkit.LeftHalfHash(alg, at), true
+	case "otheralg":
+		return vkit.LeftHalfHash(otherAlgFor(alg), at), true
+	case "full":
+		// full (not left-half) hash: twice the left-half length
+		h := vkit.LeftHalfHash(alg, at)
+		return h + h, true
+	case "othertoken":
+		return vkit.LeftHalfHash(alg, at+"x"), true
+	case "junk":
+		return "AAAA", true
+	case "empty":
+		return "", true
+	}
+	return "", false
+}
+
+func buildPayload(tok TokenSpec, now time.Time) (map[string]any, []byte) {
 	m := map[string]any{}
-	tok := c.Tok
 	if tok.Iss != nil {
 		m["iss"] = *tok.Iss
 	}
@@ -271,21 +519,8 @@ func buildPayload(c Case, now time.Time) (map[string]any, []byte) {
 	if tok.Acr != nil {
 		m["acr"] = *tok.Acr
 	}
-	switch tok.AtHash {
-	case "correct":
-		m["at_hash"] = vkit.LeftHalfHash(tok.Alg, tok.AccessTok)
-	case "otheralg":
-		m["at_hash"] = vkit.LeftHalfHash(otherAlgFor(tok.Alg), tok.AccessTok)
-	case "full":
-		// full (not left-half) hash: twice the left-half length
-		h := vkit.LeftHalfHash(tok.Alg, tok.AccessTok)
-		m["at_hash"] = h + h
-	case "othertoken":
-		m["at_hash"] = vkit.LeftHalfHash(tok.Alg, tok.AccessTok+"x")
-	case "junk":
-		m["at_hash"] = "AAAA"
-	case "empty":
-		m["at_hash"] = ""
+	if h, ok := hashOfClass(tok.AtHash, tok.Alg, tok.AccessTok); ok {
+		m["at_hash"] = h
 	}
 	if tok.Extra {
 		m["custom_s"] = "v"
@@ -293,12 +528,48 @@ func buildPayload(c Case, now time.Time) (map[string]any, []byte) {
 		m["custom_o"] = map[string]any{"k": []any{"a", 1.0, true}}
 		m["email"] = "u@example.com"
 	}
+	if nb := tok.Nb; nb != nil {
+		if nb.ClientID != nil {
+			m["client_id"] = *nb.ClientID
+		}
+		if nb.Scope != nil {
+			m["scope"] = *nb.Scope
+		}
+		if nb.JTI != nil {
+			m["jti"] = *nb.JTI
+		}
+		if nb.NbfRel != nil {
+			m["nbf"] = now.Unix() + int64(*nb.NbfRel)
+		}
+		if nb.AMR != nil {
+			m["amr"] = nb.AMR
+		}
+		if nb.SID != nil {
+			m["sid"] = *nb.SID
+		}
+		switch nb.CHash {
+		case "code":
+			m["c_hash"] = vkit.LeftHalfHash(tok.Alg, "code-1")
+		case "at":
+			m["c_hash"] = vkit.LeftHalfHash(tok.Alg, tok.AccessTok)
+		case "junk":
+			m["c_hash"] = "AAAA"
+		}
+		if nb.Act {
+			m["act"] = map[string]any{"sub": "admin-1", "iss": "https://issuer.example.com"}
+		}
+		for k, v := range nb.Custom {
+			if _, taken := m[k]; !taken {
+				m[k] = v
+			}
+		}
+	}
 	b, _ := json.Marshal(m)
 	return m, b
 }
 
-func aud(c Case) []string {
-	switch a := c.Tok.Aud.(type) {
+func audOf(tok TokenSpec) []string {
+	switch a := tok.Aud.(type) {
 	case string:
 		return []string{a}
 	case []string:
@@ -325,8 +596,8 @@ func contains(l []string, s string) bool {
 const guard = 2 // seconds of clock-rounding margin on both sides of every bound
 
 // verdict: +1 must accept, -1 must reject, 0 grey. reasons name the failed conditions.
-func model(c Case) (verdict int, reject []string, grey []string) {
-	tok, cfg := c.Tok, c.Cfg
+// The model looks at the claims the statement names and at nothing else (tok.Nb and tok.Extra are invisible to it).
+func model(cfg Config, tok TokenSpec, keyOK bool) (verdict int, reject []string, grey []string) {
 	off := cfg.OffsetS
 	if off < 0 {
 		off = 1
@@ -340,7 +611,7 @@ func model(c Case) (verdict int, reject []string, grey []string) {
 	if tok.Sub == nil || *tok.Sub == "" {
 		rej("sub")
 	}
-	a := aud(c)
+	a := audOf(tok)
 	if !contains(a, cfg.ClientID) {
 		rej("aud")
 	}
@@ -355,15 +626,10 @@ func model(c Case) (verdict int, reject []string, grey []string) {
 		rej("azp-missing")
 	}
 	// signature
-	alg := tok.Alg
-	allowed := cfg.Algs
-	if allowed == nil {
-		allowed = []string{"RS256", "ES256", "PS256"}
-	}
-	if !contains(allowed, alg) {
+	if !contains(allowedAlgs(cfg), tok.Alg) {
 		rej("alg")
 	}
-	if !contains(c.Trusted, tok.Key) {
+	if !keyOK {
 		rej("key")
 	}
 	// expiration: must hold exp > now; configured offset is extra strictness the code documents
@@ -472,14 +738,43 @@ func normJSON(v any) any {
 	return out
 }
 
-func run(c Case) *vkit.Result {
-	res := &vkit.Result{}
-	// verifier through the public constructor
+// keySet publishes the verifier's keys.
+func keySet(c Case) *staticKeySet {
 	var keys []jose.JSONWebKey
-	for _, n := range c.Trusted {
-		keys = append(keys, vkit.Key(n).JWK(kidOf(c, n), "sig", ""))
+	if c.V == 0 {
+		for _, n := range c.Trusted {
+			keys = append(keys, vkit.Key(n).JWK(kidOf(c, n), "sig", ""))
+		}
+		return &staticKeySet{keys: keys}
 	}
-	ks := &staticKeySet{keys: keys}
+	for _, n := range c.Trusted {
+		keys = append(keys, vkit.Key(n).JWK(n, "sig", ""))
+	}
+	kids := make([]string, 0, len(c.StandIn))
+	for kid := range c.StandIn {
+		kids = append(kids, kid)
+	}
+	sort.Strings(kids)
+	for _, kid := range kids {
+		if n := c.StandIn[kid]; n != "" && n != kid && !contains(c.Trusted, kid) {
+			keys = append(keys, vkit.Key(n).JWK(kid, "sig", ""))
+		}
+	}
+	return &staticKeySet{keys: keys}
+}
+
+func kidOf(c Case, keyName string) string {
+	// (V=0) the trusted set publishes each key under the name of the *signing* key when it
+	// stands in for it (same kid, other key), otherwise under its own name
+	if !contains(c.Trusted, c.Tok.Key) {
+		return c.Tok.Key
+	}
+	return keyName
+}
+
+func newVerifier(c Case) *rp.IDTokenVerifier {
+	// verifier through the public constructor
+	ks := keySet(c)
 	var opts []rp.VerifierOption
 	if c.Cfg.OffsetS >= 0 {
 		opts = append(opts, rp.WithIssuedAtOffset(time.Duration(c.Cfg.OffsetS)*time.Second))
@@ -503,47 +798,119 @@ func run(c Case) *vkit.Result {
 	if c.Cfg.Algs != nil {
 		opts = append(opts, rp.WithSupportedSigningAlgorithms(c.Cfg.Algs...))
 	}
-	v := rp.NewIDTokenVerifier(c.Cfg.Issuer, c.Cfg.ClientID, ks, opts...)
+	return rp.NewIDTokenVerifier(c.Cfg.Issuer, c.Cfg.ClientID, ks, opts...)
+}
 
-	// the token is built relative to the wall clock right before the call
-	t0 := time.Now()
-	pm, payload := buildPayload(c, t0)
-	token := vkit.MustSignJWT(c.Tok.Alg, c.Tok.Key, vkit.Key(c.Tok.Key), payload)
+// built is a signed token (claims relative to the wall clock t0).
+type built struct {
+	pm    map[string]any
+	token string
+	t0    time.Time
+}
 
-	var (
-		claims *oidc.IDTokenClaims
-		err    error
-		pan    any
-	)
-	func() {
-		defer func() { pan = recover() }()
-		if c.Tok.WithAT {
-			claims, err = rp.VerifyTokens[*oidc.IDTokenClaims](context.Background(), c.Tok.AccessTok, token, v)
-		} else {
-			claims, err = rp.VerifyIDToken[*oidc.IDTokenClaims](context.Background(), token, v)
+func buildToken(tok TokenSpec, t0 time.Time) built {
+	pm, payload := buildPayload(tok, t0)
+	return built{pm: pm, token: vkit.MustSignJWT(tok.Alg, tok.Key, vkit.Key(tok.Key), payload), t0: t0}
+}
+
+// outcome of one library call.
+type outcome struct {
+	claims *oidc.IDTokenClaims
+	err    error
+	out    string // helpers: what came back
+	pan    any
+	stack  string
+	t1     time.Time
+}
+
+// execVerify only calls the library (it also runs inside the goroutines of the concurrent sub-check).
+func execVerify(v *rp.IDTokenVerifier, tok *TokenSpec, token string) (o outcome) {
+	defer func() {
+		if p := recover(); p != nil {
+			o.pan, o.stack = p, string(debug.Stack())
 		}
+		o.t1 = time.Now()
 	}()
-	t1 := time.Now()
-	if pan != nil {
-		res.Fail("C01:panic", "verifier panicked: %v", pan)
-		return res
+	if tok.WithAT {
+		o.claims, o.err = rp.VerifyTokens[*oidc.IDTokenClaims](context.Background(), tok.AccessTok, token, v)
+	} else {
+		o.claims, o.err = rp.VerifyIDToken[*oidc.IDTokenClaims](context.Background(), token, v)
 	}
-	verdict, reject, grey := model(c)
+	return o
+}
+
+// execHelper: exported functions a relying party may call between (or next to) verifications.
+func execHelper(s *Step) (o outcome) {
+	defer func() {
+		if p := recover(); p != nil {
+			o.pan, o.stack = p, string(debug.Stack())
+		}
+		o.t1 = time.Now()
+	}()
+	alg := jose.SignatureAlgorithm(s.Alg)
+	switch s.Op {
+	case "hasher":
+		// e.g. an s_hash of the state, computed with the hash that belongs to the signature algorithm
+		h, err := libcrypto.GetHashAlgorithm(alg)
+		if err != nil || h == nil {
+			o.err = fmt.Errorf("no hash: %v", err)
+			return o
+		}
+		h.Write([]byte(s.Data))
+		if strings.Contains(s.Use, "sum") {
+			o.out = vkit.B64(h.Sum(nil))
+		}
+		if strings.Contains(s.Use, "reset") {
+			h.Reset()
+		}
+	case "claimhash":
+		o.out, o.err = oidc.ClaimHash(s.Data, alg)
+	case "hashstring":
+		h, err := libcrypto.GetHashAlgorithm(alg)
+		if err != nil || h == nil {
+			o.err = fmt.Errorf("no hash: %v", err)
+			return o
+		}
+		o.out = libcrypto.HashString(h, s.Data, s.Use == "half")
+	case "verifyat":
+		hash, _ := hashOfClass(s.AtHash, s.Alg, s.Data)
+		o.err = rp.VerifyAccessToken(s.Data, hash, alg)
+	}
+	return o
+}
+
+type stepInfo struct {
+	Op       string   `json:"op"`
+	Accepted bool     `json:"accepted"`
+	Model    int      `json:"model"`
+	Reject   []string `json:"reject,omitempty"`
+	Grey     []string `json:"grey,omitempty"`
+	key      string
+	nontriv  bool
+}
+
+// judgeVerify is the per-token oracle: the same for a single verification, a step of a history and a step of a goroutine.
+func judgeVerify(res *vkit.Result, c Case, tok TokenSpec, b built, o outcome, where string) stepInfo {
+	if o.pan != nil {
+		res.Fail("C01:panic@"+vkit.FirstLibFrame(o.stack), "%sverifier panicked: %v", where, o.pan)
+		return stepInfo{Op: "verify"}
+	}
+	verdict, reject, grey := model(c.Cfg, tok, contains(c.Trusted, tok.Key))
 	// Claims are relative to the truncated second of t0 (up to 1 s behind the clock) and the library rounds
 	// now+offset to the nearest second (up to 0.5 s ahead), so the 2 s guard holds only while the case takes
 	// less than 0.5 s: beyond 400 ms (loaded machine) the time-dependent verdicts are grey.
-	if t1.Sub(t0) > 400*time.Millisecond {
+	if o.t1.Sub(b.t0) > 400*time.Millisecond {
 		verdict = 0
 		grey = append(grey, "slow-clock")
 	}
+	claims, err := o.claims, o.err
 	accepted := err == nil
 
-	res.Info = map[string]any{"accepted": accepted, "model": verdict, "reject": reject, "grey": grey}
 	switch verdict {
 	case 1:
 		res.Label("must-accept")
 		if !accepted {
-			res.Fail("C01:complete", "valid token rejected: %v", err)
+			res.Fail("C01:complete", "%svalid token rejected: %v", where, err)
 		}
 	case -1:
 		res.Label("must-reject")
@@ -552,61 +919,289 @@ func run(c Case) *vkit.Result {
 			res.Label("reject:" + r)
 		}
 		if accepted {
-			res.Fail("C01:sound:"+strings.Join(reject, "+"), "token accepted although it violates %v", reject)
+			res.Fail("C01:sound:"+strings.Join(reject, "+"), "%stoken accepted although it violates %v", where, reject)
 		}
 	default:
 		res.Label("grey")
-		res.Grey = true
 	}
 	if accepted {
 		res.Label("accepted")
 		// claims are returned unchanged: compare the re-marshalled claims with the signed JSON
-		got := normJSON(claims)
-		want := normJSON(pm)
-		if !reflect.DeepEqual(got, want) {
-			gb, _ := json.Marshal(got)
-			wb, _ := json.Marshal(want)
-			res.Fail("C01:claims-unchanged", "returned claims differ from the signed payload: got %s want %s", gb, wb)
-		}
-		if string(claims.GetSignatureAlgorithm()) != c.Tok.Alg {
-			res.Fail("C01:sigalg", "SignatureAlg=%q, header alg=%q", claims.GetSignatureAlgorithm(), c.Tok.Alg)
+		if claims == nil {
+			res.Fail("C01:no-claims", "%sneither claims nor an error returned", where)
+		} else {
+			got := normJSON(claims)
+			want := normJSON(b.pm)
+			if !reflect.DeepEqual(got, want) {
+				gb, _ := json.Marshal(got)
+				wb, _ := json.Marshal(want)
+				res.Fail("C01:claims-unchanged", "%sreturned claims differ from the signed payload: got %s want %s", where, gb, wb)
+			}
+			if string(claims.GetSignatureAlgorithm()) != tok.Alg {
+				res.Fail("C01:sigalg", "%sSignatureAlg=%q, header alg=%q", where, claims.GetSignatureAlgorithm(), tok.Alg)
+			}
 		}
 	} else {
 		if claims != nil {
-			res.Fail("C01:claims-on-error", "claims returned together with error %v", err)
+			res.Fail("C01:claims-on-error", "%sclaims returned together with error %v", where, err)
 		}
 	}
+	labelNeighbours(res, c.Cfg, tok, verdict)
 
-	// non-triviality and class key
 	nm := len(reject) + len(grey)
-	res.NonTrivial = nm >= 2 || len(grey) > 0 || len(aud(c)) > 1
-	res.Key = classKey(c, verdict, reject, grey)
+	return stepInfo{Op: "verify", Accepted: accepted, Model: verdict, Reject: reject, Grey: grey,
+		nontriv: nm >= 2 || len(grey) > 0 || len(audOf(tok)) > 1,
+		key:     tokKey(tok, verdict, reject, grey)}
+}
+
+func labelNeighbours(res *vkit.Result, cfg Config, tok TokenSpec, verdict int) {
+	nb := tok.Nb
+	if nb == nil {
+		return
+	}
+	v := map[int]string{1: "must-accept", -1: "must-reject", 0: "grey"}[verdict]
+	res.Label("nb:any/" + v)
+	if nb.ClientID != nil {
+		cls := "diff"
+		switch *nb.ClientID {
+		case cfg.ClientID:
+			cls = "eq"
+		case "":
+			cls = "empty"
+		}
+		azp := "azp"
+		if tok.Azp == nil || *tok.Azp == "" {
+			azp = "noazp"
+		}
+		multi := "aud<=1"
+		if len(audOf(tok)) > 1 {
+			multi = "aud>1"
+		}
+		res.Label("nb:client_id=" + cls + "/" + azp + "/" + multi + "/" + v)
+	}
+	for _, e := range []struct {
+		name    string
+		present bool
+	}{{"scope", nb.Scope != nil}, {"jti", nb.JTI != nil}, {"nbf", nb.NbfRel != nil}, {"amr", nb.AMR != nil},
+		{"sid", nb.SID != nil}, {"c_hash", nb.CHash != ""}, {"act", nb.Act}, {"custom", len(nb.Custom) > 0}} {
+		if e.present {
+			res.Label("nb:" + e.name)
+		}
+	}
+}
+
+// judgeHelper: helpers must not panic; a direct rp.VerifyAccessToken is an at_hash verification and is judged as such.
+func judgeHelper(res *vkit.Result, s Step, o outcome, where string) stepInfo {
+	res.Label("helper:" + s.Op)
+	if o.pan != nil {
+		res.Fail("C01:panic@"+vkit.FirstLibFrame(o.stack), "%s%s(%s) panicked: %v", where, s.Op, s.Alg, o.pan)
+		return stepInfo{Op: s.Op}
+	}
+	if s.Op == "verifyat" {
+		switch s.AtHash {
+		case "absent", "empty", "correct":
+			if o.err != nil {
+				res.Fail("C01:verifyat:complete", "%srp.VerifyAccessToken(%q, at_hash class %s, %s) = %v", where, s.Data, s.AtHash, s.Alg, o.err)
+			}
+		default:
+			if o.err == nil {
+				res.Fail("C01:verifyat:sound", "%srp.VerifyAccessToken(%q, at_hash class %s, %s) accepted", where, s.Data, s.AtHash, s.Alg)
+			}
+		}
+	}
+	return stepInfo{Op: s.Op, Accepted: o.err == nil, key: s.Op + ":" + s.Alg + ":" + s.Use + s.AtHash}
+}
+
+func hashFamily(alg string) string {
+	switch {
+	case strings.HasSuffix(alg, "256"):
+		return "sha256"
+	case strings.HasSuffix(alg, "384"):
+		return "sha384"
+	}
+	return "sha512"
+}
+
+func run(c Case) *vkit.Result {
+	res := &vkit.Result{}
+	v := newVerifier(c)
+	if len(c.Conc) > 0 {
+		runConc(c, v, res)
+		return res
+	}
+	if len(c.Steps) == 0 {
+		// one verification on a fresh verifier; the token is built relative to the wall clock right before the call
+		b := buildToken(c.Tok, time.Now())
+		o := execVerify(v, &c.Tok, b.token)
+		si := judgeVerify(res, c, c.Tok, b, o, "")
+		res.Info = map[string]any{"accepted": si.Accepted, "model": si.Model, "reject": si.Reject, "grey": si.Grey}
+		res.Grey = si.Model == 0
+		res.NonTrivial = si.nontriv
+		res.Key = cfgKey(c.Cfg) + " " + si.key
+		return res
+	}
+
+	// history on one verifier: every verification is judged by the per-token oracle, with its own t0/t1 bracket
+	steps := append([]Step{{Op: "verify", Tok: &c.Tok}}, c.Steps...)
+	var infos []stepInfo
+	keys := []string{"seq", cfgKey(c.Cfg)}
+	nver, allGrey := 0, true
+	dirty := map[string]bool{} // hash families an application-side hasher was written to (and not reset) so far
+	for i := range steps {
+		s := steps[i]
+		where := fmt.Sprintf("step %d of %d: ", i+1, len(steps))
+		var si stepInfo
+		if s.Op == "verify" && s.Tok != nil {
+			b := buildToken(*s.Tok, time.Now())
+			o := execVerify(v, s.Tok, b.token)
+			si = judgeVerify(res, c, *s.Tok, b, o, where)
+			nver++
+			allGrey = allGrey && si.Model == 0
+			if i > 0 {
+				res.Label("seq:later-verification")
+				if si.Model == 1 && s.Tok.WithAT && s.Tok.AtHash == "correct" && dirty[hashFamily(s.Tok.Alg)] {
+					res.Label("seq:valid-at_hash-after-app-hashed-with-same-family")
+				}
+			}
+		} else {
+			o := execHelper(&s)
+			si = judgeHelper(res, s, o, where)
+			if s.Op == "hasher" && !strings.Contains(s.Use, "reset") && o.err == nil {
+				dirty[hashFamily(s.Alg)] = true
+			}
+		}
+		infos = append(infos, si)
+		keys = append(keys, si.key)
+	}
+	res.Label(fmt.Sprintf("seq:verifications=%d", nver))
+	res.Info = infos
+	res.Grey = allGrey
+	res.NonTrivial = nver >= 2
+	res.Key = strings.Join(keys, " | ")
 	return res
 }
 
-func kidOf(c Case, keyName string) string {
-	// the trusted set publishes each key under the name of the *signing* key when it
-	// stands in for it (same kid, other key), otherwise under its own name
-	if !contains(c.Trusted, c.Tok.Key) {
-		return c.Tok.Key
+// runConc: the goroutines only call the library; tokens are built before, every step is judged after all have ended.
+func runConc(c Case, v *rp.IDTokenVerifier, res *vkit.Result) {
+	lists := make([][]Step, len(c.Conc))
+	for g := range c.Conc {
+		if g == 0 {
+			lists[g] = append([]Step{{Op: "verify", Tok: &c.Tok}}, c.Conc[g]...)
+		} else {
+			lists[g] = c.Conc[g]
+		}
 	}
-	return keyName
+	toks := make([][]built, len(lists))
+	outs := make([][]outcome, len(lists))
+	t0 := time.Now()
+	for g, steps := range lists {
+		toks[g] = make([]built, len(steps))
+		outs[g] = make([]outcome, len(steps))
+		for i, s := range steps {
+			if s.Op == "verify" && s.Tok != nil {
+				toks[g][i] = buildToken(*s.Tok, t0)
+			}
+		}
+	}
+	start := make(chan struct{})
+	var wg sync.WaitGroup
+	for g := range lists {
+		wg.Add(1)
+		go func(g int) {
+			defer wg.Done()
+			<-start
+			for i := range lists[g] {
+				s := &lists[g][i]
+				if s.Op == "verify" && s.Tok != nil {
+					outs[g][i] = execVerify(v, s.Tok, toks[g][i].token)
+				} else {
+					outs[g][i] = execHelper(s)
+				}
+			}
+		}(g)
+	}
+	close(start)
+	wg.Wait()
+
+	var infos [][]stepInfo
+	keys := []string{"conc", cfgKey(c.Cfg)}
+	nver, allGrey := 0, true
+	withHash := map[string]int{}
+	for g, steps := range lists {
+		var gi []stepInfo
+		for i, s := range steps {
+			where := fmt.Sprintf("goroutine %d of %d, step %d: ", g+1, len(lists), i+1)
+			var si stepInfo
+			if s.Op == "verify" && s.Tok != nil {
+				si = judgeVerify(res, c, *s.Tok, toks[g][i], outs[g][i], where)
+				nver++
+				allGrey = allGrey && si.Model == 0
+				if h, ok := hashOfClass(s.Tok.AtHash, s.Tok.Alg, s.Tok.AccessTok); ok && h != "" && s.Tok.WithAT && si.Model >= 0 {
+					withHash[hashFamily(s.Tok.Alg)]++
+				}
+			} else {
+				si = judgeHelper(res, s, outs[g][i], where)
+			}
+			gi = append(gi, si)
+			keys = append(keys, fmt.Sprintf("g%d:%s", g, si.key))
+		}
+		infos = append(infos, gi)
+	}
+	for _, n := range withHash {
+		if n >= 2 {
+			res.Label("conc:>=2-valid-responses-with-at_hash-of-one-hash-family")
+			break
+		}
+	}
+	res.Label(fmt.Sprintf("conc:goroutines=%d", len(lists)))
+	res.Info = infos
+	res.Grey = allGrey
+	res.NonTrivial = len(lists) >= 2 && nver >= 2
+	res.Key = strings.Join(keys, " | ")
 }
 
-func classKey(c Case, verdict int, reject, grey []string) string {
-	cfg := c.Cfg
-	return fmt.Sprintf("cfg[%s|%s|%d|%d|%d|%s|%v|%v] v=%d r=%v g=%v aud=%d alg=%s at=%s/%v rel=%d/%d/%d",
-		cfg.Issuer, cfg.ClientID, cfg.OffsetS, cfg.MaxIATS, cfg.MaxAuthS, cfg.NonceMode, cfg.ACR, cfg.Algs,
-		verdict, reject, grey, len(aud(c)), c.Tok.Alg, c.Tok.AtHash, c.Tok.WithAT, c.Tok.Exp.Rel, c.Tok.Iat.Rel, c.Tok.AuthTime.Rel)
+func cfgKey(cfg Config) string {
+	return fmt.Sprintf("cfg[%s|%s|%d|%d|%d|%s|%v|%v]", cfg.Issuer, cfg.ClientID, cfg.OffsetS, cfg.MaxIATS, cfg.MaxAuthS, cfg.NonceMode, cfg.ACR, cfg.Algs)
 }
+
+func tokKey(tok TokenSpec, verdict int, reject, grey []string) string {
+	nb := ""
+	if tok.Nb != nil {
+		nb = " nb"
+		if tok.Nb.ClientID != nil {
+			nb += ":client_id=" + *tok.Nb.ClientID
+		}
+	}
+	return fmt.Sprintf("v=%d r=%v g=%v aud=%d alg=%s at=%s/%v rel=%d/%d/%d%s",
+		verdict, reject, grey, len(audOf(tok)), tok.Alg, tok.AtHash, tok.WithAT, tok.Exp.Rel, tok.Iat.Rel, tok.AuthTime.Rel, nb)
+}
+
+const ruleToken = "verifier config (issuer, client, offset, max iat age, max auth age, nonce mode, acr list, alg list) x signed token with 0-3 mutated claim dimensions incl. times at +-{0,1,2,3,5,30,3600}s around each bound; " +
+	"half of the tokens also carry generated neighbour claims the statement does not mention (client_id equal / other party / empty, scope, jti, nbf in the past, amr, sid, c_hash, act, look-alike custom members " +
+	"audience / authorized_party / cid / s_hash / issuer / ...), which the model does not see: they must not change the verdict and must come back with the signed claims"
 
 var prop = vkit.Prop[Case]{
 	ID: "C01",
-	Rule: "cases = verifier config (issuer, client, offset, max iat age, max auth age, nonce mode, acr list, alg list) x signed token with 0-3 mutated claim dimensions incl. times at +-{0,1,2,3,5,30,3600}s around each bound; " +
-		"non-trivial = >=2 conditions violated or in a tolerance window, or any time within the window, or multi-audience; distinct = (config, verdict, violated set, window set, aud size, alg, at_hash class, relative times)",
+	Rule: "cases = " + ruleToken + "; 60 % one verification on a fresh verifier, 40 % histories of 2-5 verifications (generated tokens, or an earlier token response once more) on ONE verifier in one process, " +
+		"interleaved with 0-2 generated calls of exported helpers a relying party may use (crypto.GetHashAlgorithm + Write [+ Sum] [+ Reset] on the returned hash, oidc.ClaimHash, crypto.HashString, rp.VerifyAccessToken directly), " +
+		"every verification judged by the same per-token oracle with its own t0/t1 bracket; " +
+		"non-trivial = >=2 conditions violated or in a tolerance window, or any time within the window, or multi-audience, or a history with >=2 verifications; distinct = (config, per verification: verdict, violated set, window set, aud size, alg, at_hash class, relative times, client_id neighbour; per helper: op, alg, use)",
 	Gen: genCase,
 	Run: run,
 }
 
-func TestRapid(t *testing.T)  { prop.Check(t) }
-func TestReplay(t *testing.T) { prop.Replay(t) }
+// concurrent sub-check (run from a -race binary, see check.json race_tests)
+var propConc = vkit.Prop[Case]{
+	ID: "C01",
+	Rule: "concurrent sub-check (-race binary, GORACE=halt_on_error): 2-6 goroutines with 1-3 steps each (verifications of generated valid and invalid token responses, mostly with access token and at_hash; 1 in 5 an exported helper call) " +
+		"on ONE shared verifier, tokens built and signed before, goroutines released together by a barrier, they only call the library and store what it returned; every verification is judged after all goroutines have ended by the per-token oracle " +
+		"(claims relative to the common t0; a goroutine that finished later than t0+400 ms is grey); a data race report kills the process and the driver reports the case on disk; " +
+		"tokens = " + ruleToken + "; non-trivial = >=2 goroutines and >=2 verifications; distinct = (config, per goroutine the verification / helper classes)",
+	Gen:   genConcCase,
+	Run:   run,
+	Track: true,
+}
+
+func TestRapid(t *testing.T)      { prop.Check(t) }
+func TestReplay(t *testing.T)     { prop.Replay(t) }
+func TestConcurrent(t *testing.T) { propConc.Check(t) }
